@@ -1,6 +1,7 @@
 import OsuProofs.RotationST
 import OsuProofs.RotationField
 import OsuProofs.RotationST4
+import OsuProofs.RotationStress
 /-
 C09 — source terms, roughness and stress are invariant under joint rotation.
 
@@ -164,5 +165,51 @@ theorem st4_dissipation_field_rotates (bp : BrkP ℝ) (θ0 : ℝ) (om df : List 
 depend on where the directions start -/
 theorem isotropic_exceedance_invariant (bp : BrkP ℝ) (k : Fin N) (b : Fin N → ℝ) :
     isoExceedance bp (List.ofFn (rotE k b)) = isoExceedance bp (List.ofFn b) := isoExceedance_rot bp k b
+
+/-- **resolved wave stress, whole field**: the (east, north) stress of the rotated source term is
+the rotated vector -/
+theorem resolved_stress_rotates (p : GenP ℝ) (θ0 : ℝ) (om df : List ℝ) (kin : Kin ℝ) (S : List (Fin N → ℝ)) (k : Fin N) :
+    IsRot ((k : ℕ) * dθ N) (resolvedStress p (uniformGrid (N := N) θ0 om df) kin (fieldOf S))
+      (resolvedStress p (uniformGrid (N := N) θ0 om df) kin (fieldOf (rotField k S))) :=
+  resolvedStress_rot p θ0 om df kin S k
+
+/-- **WAM tail stress**: fails for the rotated input exactly when it fails for the original, and
+otherwise is the rotated vector -/
+theorem tail_stress_rotates (p : GenP ℝ) (θ0 : ℝ) (om df : List ℝ) (rows : List (Fin N → ℝ)) (w : Wind ℝ) (z0 : ℝ) (k : Fin N) :
+    OptRot ((k : ℕ) * dθ N) (wamTail p (uniformGrid (N := N) θ0 om df) (fieldOf rows) w z0)
+      (wamTail p (uniformGrid (N := N) θ0 om df) (fieldOf (rotField k rows)) (turnWind k w) z0) :=
+  wamTail_rot p θ0 om df rows w z0 k
+
+/-- **total stress** (resolved + tail + viscous): same magnitude, and the same failure, after a joint rotation -/
+theorem total_stress_magnitude_invariant (p : GenP ℝ) (θ0 : ℝ) (om df : List ℝ) (kin : Kin ℝ) (rows : List (Fin N → ℝ))
+    (w : Wind ℝ) (z0 : ℝ) (k : Fin N) :
+    (totalStress rfloor p (uniformGrid (N := N) θ0 om df) kin (fieldOf (rotField k rows)) (turnWind k w) z0).map Prod.fst
+      = (totalStress rfloor p (uniformGrid (N := N) θ0 om df) kin (fieldOf rows) w z0).map Prod.fst :=
+  totalStress_magnitude_rot p θ0 om df kin rows w z0 k
+
+/-- **stress balance**: the function of `log z0` whose root is the roughness is unchanged -/
+theorem stress_balance_invariant (p : GenP ℝ) (θ0 : ℝ) (om df : List ℝ) (kin : Kin ℝ) (rows : List (Fin N → ℝ))
+    (w : Wind ℝ) (k : Fin N) (lz : ℝ) :
+    stressBalance rfloor p (uniformGrid (N := N) θ0 om df) kin (fieldOf (rotField k rows)) (turnWind k w) lz
+      = stressBalance rfloor p (uniformGrid (N := N) θ0 om df) kin (fieldOf rows) w lz :=
+  stressBalance_rot p θ0 om df kin rows w k lz
+
+/-- **roughness length**: the model's `roughness` (Newton–Raphson on the stress balance, with its
+brackets, step limits and failure modes) returns the same value or the same failure -/
+theorem roughness_invariant (tot : Option ℝ → ℝ) (p : GenP ℝ) (θ0 : ℝ) (om df : List ℝ) (kin : Kin ℝ)
+    (rows : List (Fin N → ℝ)) (w : Wind ℝ) (guess : ℝ) (k : Fin N) :
+    roughness (fun lz => tot (stressBalance rfloor p (uniformGrid (N := N) θ0 om df) kin (fieldOf (rotField k rows)) (turnWind k w) lz))
+        p (turnWind k w) guess
+      = roughness (fun lz => tot (stressBalance rfloor p (uniformGrid (N := N) θ0 om df) kin (fieldOf rows) w lz)) p w guess :=
+  roughness_rot tot p θ0 om df kin rows w guess k
+
+/-- **bulk rates** (`Σ_f Σ_θ · Δf Δθ` of any source-term field) are unchanged when the field is rotated -/
+theorem bulk_rate_invariant (θ0 : ℝ) (om df : List ℝ) (D : List (Fin N → ℝ)) (k : Fin N) :
+    bulk (uniformGrid (N := N) θ0 om df) (fieldOf (rotField k D)) = bulk (uniformGrid (N := N) θ0 om df) (fieldOf D) :=
+  bulk_rot θ0 om df D k
+
+/-- the hypotheses-free statements above are about a non-degenerate rotation: a quarter turn on four
+bins moves the energy of bin 0 to bin 1 -/
+example : rotE (N := 4) 1 (fun j => if j = 0 then 1 else 0) 1 = 1 := by simp [rotE]
 
 end Osu.Props.C09
